@@ -1,4 +1,5 @@
 import NodisVerif.Proofs.C04Spec
+import NodisVerif.Proofs.C04Seq
 /-
   ZREMRANGEBYSCORE / ZREMRANGEBYRANK / ZREM / ZADD against the reference sorted list.
 -/
@@ -256,31 +257,23 @@ theorem sorted_eq_of_mem {z : ZSet} (h : Inv z) (l : List Item) (hl : l.Pairwise
   · intro a ha b hb hab hba
     exact itemLt_asymm a b (h.good a ha) (h.good b hb) hab hba
 
-theorem dict_zAdd_mem {z : ZSet} (h : Inv z) (m : Bytes) (s : F64) (q : Bytes × F64) :
-    q ∈ (zAdd z m s).1.dict ↔ q = (m, s) ∨ (q ∈ z.dict ∧ q.1 ≠ m) := by
-  have key := mem_set m s q z.dict h.dictPW
-  unfold zAdd
-  cases hget : AList.get? z.dict m with
-  | none => exact key
-  | some old =>
-    simp only
-    split <;> exact key
-
-/-- plain ZADD: the member moves to the place of its new score, nothing else changes -/
-theorem zAdd_sorted {z : ZSet} (h : Inv z) (m : Bytes) (s : F64) (hs : F64.isNaN s = false)
-    (hz : ZeroSafe z m s) : Spec.ZSet.sorted (zAdd z m s).1 = Spec.ZSet.add z m s := by
-  have h' := inv_zAdd h m s hs hz
+/-- a state whose dictionary is that of `z` with member `m` (re)bound to `s'` has the reference
+    list `Spec.add z m s'` -/
+theorem sorted_eq_add {z z' : ZSet} (h : Inv z) (h' : Inv z') (m : Bytes) (s' : F64)
+    (hs : F64.isNaN s' = false)
+    (hd : ∀ q, q ∈ z'.dict ↔ q = (m, s') ∨ (q ∈ z.dict ∧ q.1 ≠ m)) :
+    Spec.ZSet.sorted z' = Spec.ZSet.add z m s' := by
   have hsub : ((Spec.ZSet.sorted z).filter fun it => decide (it.2 ≠ m)).Sublist (Spec.ZSet.sorted z) :=
     List.filter_sublist
   have hspw : (Spec.ZSet.sorted z).Pairwise ILt := by rw [← sl_eq_sorted h]; exact h.slPW
   have hsg : ∀ a ∈ Spec.ZSet.sorted z, Good a := by rw [← sl_eq_sorted h]; exact h.good
   apply sorted_eq_of_mem h'
   · unfold Spec.ZSet.add Spec.ZSet.rem
-    apply insert_pairwise (s, m) hs _ (hspw.sublist hsub) (fun a ha => hsg a (hsub.subset ha))
+    apply insert_pairwise (s', m) hs _ (hspw.sublist hsub) (fun a ha => hsg a (hsub.subset ha))
     intro a ha
     simpa using (List.mem_filter.mp ha).2
-  · intro s' m'
-    rw [dict_zAdd_mem h]
+  · intro s0 m0
+    rw [hd]
     unfold Spec.ZSet.add Spec.ZSet.rem
     rw [mem_insert, List.mem_filter, mem_sorted]
     simp only [Prod.mk.injEq, ne_eq, decide_not, Bool.not_eq_eq_eq_not, Bool.not_true,
@@ -292,6 +285,52 @@ theorem zAdd_sorted {z : ZSet} (h : Inv z) (m : Bytes) (s : F64) (hs : F64.isNaN
     · rintro (⟨e1, e2⟩ | e)
       · exact Or.inl ⟨e2, e1⟩
       · exact Or.inr e
+
+/-- plain ZADD: the member is placed where its (stored) score demands, nothing else changes; the
+    stored score is the new one unless an IEEE-equal score was already stored (then nothing changes) -/
+theorem zAdd_sorted {z : ZSet} (h : Inv z) (m : Bytes) (s : F64) (hs : F64.isNaN s = false) :
+    ∃ s', zScore (zAdd z m s).1 m = some s' ∧ F64.eq s' s = true ∧
+      Spec.ZSet.sorted (zAdd z m s).1 = Spec.ZSet.add z m s' := by
+  have h' := inv_zAdd h m s hs
+  have hss : F64.eq s s = true := by simp [F64.eq, hs]
+  have hset : ∀ (z' : ZSet), Inv z' → z'.dict = AList.set z.dict m s →
+      Spec.ZSet.sorted z' = Spec.ZSet.add z m s := by
+    intro z' hz' hdict
+    apply sorted_eq_add h hz' m s hs
+    intro q
+    rw [hdict]
+    exact mem_set m s q z.dict h.dictPW
+  unfold zScore
+  revert h'
+  unfold zAdd
+  cases hget : AList.get? z.dict m with
+  | none =>
+    intro h'
+    exact ⟨s, get?_set_self m s z.dict, hss, hset _ h' rfl⟩
+  | some old =>
+    simp only
+    by_cases heq : F64.eq s old = true
+    · rw [if_pos heq]
+      intro _
+      refine ⟨old, hget, eq_symm s old heq, ?_⟩
+      apply sorted_eq_add h h m old (h.noNaN (m, old) ((get?_iff_mem m old z.dict h.dictPW).mp hget))
+      intro q
+      have hold : (m, old) ∈ z.dict := (get?_iff_mem m old z.dict h.dictPW).mp hget
+      constructor
+      · intro e
+        by_cases hq : q.1 = m
+        · left
+          obtain ⟨k, v⟩ := q
+          simp only at hq
+          subst hq
+          rw [pairwise_key_unique z.dict h.dictPW k v old e hold]
+        · exact Or.inr ⟨e, hq⟩
+      · rintro (e | ⟨e, _⟩)
+        · rw [e]; exact hold
+        · exact e
+    · rw [if_neg heq]
+      intro h'
+      exact ⟨s, get?_set_self m s z.dict, hss, hset _ h' rfl⟩
 
 theorem length_erase_of_get? {V : Type} (key : Bytes) (v : V) : ∀ (d : AList V),
     AList.get? d key = some v → (AList.erase d key).length + 1 = d.length := by
